@@ -2,6 +2,7 @@
 import ast
 import re
 
+from .. import builders as BLD
 from .. import pathlex as PL
 from ..algebra import Alg, Uninterpreted, atom, const, ref
 from ..model import AnalysisError, attr_chain, call_name, if_chain, stmts_in
@@ -64,23 +65,12 @@ def reader_table(ctx):
         ctx.need(builds, "R07.1", "lexer branch %s has no builder" % letter)
         meth = builds[0][1]
         nargs = len(builds[0][2])
-        bfn = ctx.fn("Path.%s" % meth, "R07.1")
-        var = bfn.args.vararg.arg
-        # local <- points[index + k]
-        local_k = {}
-        for s in ast.walk(bfn):
-            if isinstance(s, ast.Assign) and isinstance(s.targets[0], ast.Name) and isinstance(s.value, ast.Subscript) \
-                    and isinstance(s.value.value, ast.Name) and s.value.value.id == var:
-                sl = s.value.slice
-                k = 0 if isinstance(sl, ast.Name) else (sl.right.value if isinstance(sl, ast.BinOp) and isinstance(sl.right, ast.Constant) else (sl.value if isinstance(sl, ast.Constant) else None))
-                if k is not None:
-                    local_k[s.targets[0].id] = k
-        # the last constructor call (full operand form) of the segment class
         segcls = {"move": "Move", "line": "Line", "smooth_quad": "QuadraticBezier", "quad": "QuadraticBezier", "smooth_cubic": "CubicBezier",
                   "cubic": "CubicBezier", "arc": "Arc"}[meth]
-        calls = [c for c in ast.walk(bfn) if call_name(c) == segcls]
+        summ = BLD.summarise(ctx, "R07.1", meth, BLD.Scenario())
+        calls = [g for g in summ.segs if g.kind == segcls]
         ctx.need(calls, "R07.1", "Path.%s: constructor call not found" % meth)
-        call = max(calls, key=lambda c: c.lineno)
+        call = calls[-1]
         if segcls == "Arc":
             pnames = ["start", "rx", "ry", "rotation", "large_arc", "sweep_flag", "end"]
         elif segcls == "Move":
@@ -90,8 +80,10 @@ def reader_table(ctx):
             pnames = [a.arg for a in init.args.args][1:]
         fields = {}
         for i, a in enumerate(call.args):
-            if isinstance(a, ast.Name) and a.id in local_k and i < len(pnames):
-                fields[local_k[a.id]] = pnames[i]
+            if isinstance(a, tuple) and a and a[0] == "abs":
+                a = a[1]
+            if isinstance(a, tuple) and a and a[0] == "op" and i < len(pnames):
+                fields[a[1]] = pnames[i]
         ctx.need(sorted(fields) == list(range(nargs)), "R07.1", "Path.%s: operand-to-field map incomplete: %s" % (meth, fields))
         out[letter] = [fields[k] for k in range(nargs)]
     out["Z"] = []
